@@ -32,3 +32,78 @@ _clone('C13', 'C13.program.no_uncaught_exception', 'C14.program.no_uncaught_exce
 _clone('C16', 'C16.program.exit_status', 'C14.program.failure_has_diagnostic')
 # the SPINFO diagnostics of the SLHA output formats are written through fill_block_entry: its frame contract carries 'the diagnostic ends up in SPINFO and nowhere else'
 _clone('C15', 'C15.fill_block_entry', 'C14.callee.fill_block_entry')
+
+# ---------------------------------------------------------------------------------------------------
+# "every failure exit is accompanied by a diagnostic", for the exits that are NOT exceptions: MSSMNoFV_setup::run returns EXIT_FAILURE when the model has a problem
+# (force-output runs).  Executed with the REAL writer of each output format; diagnostics are the std::cerr effects of run and the SPINFO entries the writer fills.
+# ---------------------------------------------------------------------------------------------------
+import z3 as _z3
+from gm2v.ob import obligation as _obligation, PROVED as _PROVED, FAILED as _FAILED, ERROR as _ERROR
+from gm2v.interp import Interp as _Interp
+from gm2v.values import Obj as _Obj
+
+def _replay_run_diag(model, wd):
+    """the REAL program on input/example.gm2 with tan(beta) = 1e8 (stau tachyon: a problem without a warning), force output on, every output format:
+    exit 1 must come with a message on stderr or SPINFO[3]/SPINFO[4] on stdout"""
+    from gm2v import native
+    from gm2v.world import REPO
+    import subprocess, re, os
+    exe = native.build_gm2calc()
+    src = open(os.path.join(REPO, 'input', 'example.gm2')).read()
+    bad = []
+    for fmt in range(5):
+        inp = re.sub(r'(?m)^(\s*0\s+)\d(\s+# output format)', r'\g<1>%d\2' % fmt, src, 1)
+        inp = re.sub(r'(?m)^(\s*3\s+)\d(\s+# force output)', r'\g<1>1\2', inp, 1)
+        # tan(beta) = 1e8: stau tachyon (a problem without a convergence warning), output forced
+        inp = re.sub(r'(?m)^(\s*3\s+)\S+(\s+# tan\(beta\))', r'\g<1>1.0E+08\2', inp, 1)
+        r = subprocess.run([exe, '--gm2calc-input-file=-'], input=inp, capture_output=True, text=True, timeout=120)
+        spinfo = re.search(r'(?mi)^Block SPINFO.*\n((?:[ \t]+.*\n)*)', r.stdout)
+        has_sp = bool(spinfo and re.search(r'(?m)^\s*[34]\s+\S', spinfo.group(1)))
+        if r.returncode != 0 and not r.stderr.strip() and not has_sp:
+            bad.append('output format %d: exit %d without any diagnostic (stderr empty, no SPINFO[3]/[4])' % (fmt, r.returncode))
+    return bool(bad), 'gm2calc.x on input/example.gm2 with tan(beta) = 1e8 (stau tachyon) and force output: ' + ('; '.join(bad) if bad else 'every failure exit carries a diagnostic')
+
+@_obligation('C14.program.failure_has_diagnostic.mssm_run', fns=[('src/gm2calc.cpp', 'MSSMNoFV_setup::run'), ('src/gm2calc.cpp', 'SLHA_writer::operator()')], replay=_replay_run_diag)
+def _(ctx):
+    """ensures, for every output format and every combination (problem, warning): if MSSMNoFV_setup::run returns EXIT_FAILURE then a diagnostic was emitted --
+    a std::cerr output of run itself or, for the SLHA output formats, an SPINFO[3]/SPINFO[4] entry filled by the real writer (stdout of the other formats carries no diagnostics)"""
+    from contracts.c15 import ghost_env, options as mk_options
+    E = ctx.w.enumerators
+    for fmt in ('Minimal', 'Detailed', 'NMSSMTools', 'SPheno', 'GM2Calc'):
+        for prob in (False, True):
+            for warn in (False, True):
+                fills = []
+                stubs = {'::have_problem': lambda i, a, t: prob, '::have_warning': lambda i, a, t: warn, '::get_warnings': lambda i, a, t: 'warnings',
+                         '::do_force_output': lambda i, a, t: None, '::set_verbose_output': lambda i, a, t: None,
+                         '::fill_block_entry': lambda i, a, t: fills.append(tuple(a)), '::write_to_stream': lambda i, a, t: fills.append(('WRITE',)),
+                         'calculate_amu': lambda i, a, t: _z3.Real('AMU'), 'calculate_uncertainty': lambda i, a, t: _z3.Real('DAMU')}
+                it = _Interp(ctx.w, mode='sym', stubs=stubs)
+                probs = _Obj('MSSMNoFV_onshell_problems', {})
+                it.stubs['::get_problems'] = lambda i, a, t, probs=probs: (probs if isinstance(t, _Obj) and t.cls.startswith('MSSMNoFV_onshell') and t.cls != 'MSSMNoFV_onshell_problems' else 'problems')
+                it.unknown_call = lambda s, args: NotImplemented
+                o = mk_options(it, calculate_uncertainty=True, output_format=E.get('Config_options::' + fmt, E.get(fmt)))
+                if fmt in ('NMSSMTools', 'SPheno', 'GM2Calc'):
+                    wobj = _Obj('SLHA_writer', {})
+                    writer = lambda *a, wobj=wobj, it=it: it.call_method(wobj, 'operator()', list(a[-3:]))
+                else:
+                    writer = lambda *a: None          # Minimal / Detailed writers print numbers only: no diagnostics on stdout
+                s = _Obj('MSSMNoFV_setup', {'options': o, 'reader': (lambda *a: None), 'writer': writer})
+                old = it.construct
+                it.construct = lambda ty, args, braced, old=old: (_Obj('MSSMNoFV_onshell', {}) if ty.name.endswith('MSSMNoFV_onshell') else old(ty, args, braced))
+                oldz = it.zero_of_type
+                it.zero_of_type = lambda ty, path=None, symbolic=None, oldz=oldz: (_Obj('MSSMNoFV_onshell', {}) if ty.name.endswith('MSSMNoFV_onshell') else oldz(ty, path, symbolic))
+                tag = '%s.problem_%s.warning_%s' % (fmt, prob, warn)
+                try:
+                    ps = it.run_paths(lambda: it.call_method(s, 'run', [_Obj('GM2_slha_io', {})]))
+                except Exception as e:
+                    ctx.record(tag, _ERROR, 'B', 0, 'execution: %s' % e)
+                    continue
+                ctx.merge_rules(it)
+                for k, (sym, r, exc) in enumerate(ps):
+                    cerr = [e for e in sym.effects if str(e[0]).startswith('out:') and 'cerr' in str(e[0])]
+                    spinfo = [f for f in fills if len(f) == 3 and f[0] == 'SPINFO' and f[1] in (3, 4)]
+                    failure = (exc is not None) or (r == 1)
+                    ok = (not failure) or bool(cerr) or bool(spinfo)
+                    ctx.record(tag if len(ps) == 1 else '%s.path%d' % (tag, k), _PROVED if ok else _FAILED, 'B', 0,
+                               'returns %s; std::cerr outputs: %d; SPINFO[3/4] entries: %d' % (r if exc is None else 'exception', len(cerr), len(spinfo)),
+                               model=None if ok else {'_format': fmt})
